@@ -263,19 +263,31 @@ def c093(ctx):
             ctx.check(R, f, "alloc %s" % (callee_skey(t) or "").rsplit("::", 1)[-1], ok,
                       "data-sized allocation: %s" % why, "allocation sized by file contents without a dominating bound", pt=pt)
     ctx.floor(R, "data-sized allocation sites", n, 4)
+    c093_header(ctx)
+
+
+def c093_header(ctx):
+    """The log reader's header gates (run by C12 too): both sizes read from the file are bounded by constants before use."""
+    R = "C09.3"
     g = ctx.fn(R, "sst::log::LogIterator::next_header")
-    if g:
-        oks = [p for p in P.ok_points(g) if _ok_is_some(g, p)]
-        ctx.floor(R, g.skey + " Ok(Some) exits", len(oks), 1)
-        for p in oks:
-            cg = K.compare_guards(g, p)
-            d = [(x["op"], K.src_names(g, x["a"]), K.src_names(g, x["b"]), x["holds"]) for x in cg]
-            ctx.check(R, g, "bound:header_sz", any(op == "Gt" and "#HEADER_MAX_SIZE" in b and not h for op, a, b, h in d),
-                      "a header is returned only on the failing edge of header_sz > HEADER_MAX_SIZE",
-                      "header_sz is no longer bounded by HEADER_MAX_SIZE before use", pt=p)
-            ctx.check(R, g, "bound:header.size", any(op == "Gt" and ".size" in a and not h and any(n.startswith("#TABLE_FULL_SIZE") or n == "#TABLE_FULL_SIZE" for n in b) for op, a, b, h in d),
-                      "a header is returned only on the failing edge of header.size > TABLE_FULL_SIZE",
-                      "header.size is no longer bounded by TABLE_FULL_SIZE before it sizes the frame buffer", pt=p)
+    if not g:
+        return
+    oks = [p for p in P.ok_points(g) if _ok_is_some(g, p)]
+    ctx.floor(R, g.skey + " Ok(Some) exits", len(oks), 1)
+    hmax = ctx.prog.consts.get("sst::log::HEADER_MAX_SIZE", {}).get("v")
+    cap = ctx.prog.consts.get("sst::TABLE_FULL_SIZE", {}).get("v")
+    for p in oks:
+        d = [(x["op"], K.src_names(g, x["a"]), K.src_names(g, x["b"]), x["holds"]) for x in K.compare_guards(g, p)]
+        hv = [int(n[1:]) for op, a, b, h in d if op == "Gt" and not h and ".size" not in a for n in b if re.fullmatch(r"#\d+", n) and int(n[1:]) > 0]
+        ctx.check(R, g, "bound:header_sz", bool(hv) and hmax is not None and min(hv) <= hmax,
+                  "a header is returned only on the failing edge of header_sz > a constant no larger than HEADER_MAX_SIZE",
+                  "header_sz is no longer bounded by a constant (at most HEADER_MAX_SIZE, the header buffer's length) before use", pt=p)
+        # any constant bound makes the allocation bounded; the value must stay within what the table format allows (TABLE_FULL_SIZE).
+        # That the bound is not *below* what the writer can produce is C12.6.
+        vals = [int(n[1:]) for op, a, b, h in d if op == "Gt" and ".size" in a and not h for n in b if re.fullmatch(r"#\d+", n)]
+        ctx.check(R, g, "bound:header.size", bool(vals) and cap is not None and min(vals) <= cap,
+                  "a header is returned only on the failing edge of header.size > a constant no larger than TABLE_FULL_SIZE",
+                  "header.size is no longer bounded by a constant (at most TABLE_FULL_SIZE) before it sizes the frame buffer", pt=p)
 
 
 def c095(ctx):
